@@ -1,11 +1,12 @@
 #!/venv/bin/python
 """Sensitivity self-test: apply each tools/mutants/<ID>/*.diff (and seeded/<name>/patch.diff) to a scratch copy of
 /repo, run `./check <ID> quick` against it (VERIF_REPO) and expect exit 1.
-usage: run_mutants.py [--tier quick|thorough] [--jobs N] [ID|ID/name ...]"""
+usage: run_mutants.py [--tier quick|thorough] [--jobs N] [--seeds 1,2,3] [ID|ID/name ...]"""
 import glob, json, os, shutil, subprocess, sys, tempfile, time
 from concurrent.futures import ThreadPoolExecutor
 HERE = os.path.dirname(os.path.abspath(__file__))
 VERIF = os.path.dirname(HERE)
+SEEDS = [int(os.environ.get("VERIF_SEED", "1"))]
 
 def run_one(args):
     pid, name, diff, tier = args
@@ -16,20 +17,27 @@ def run_one(args):
         r = subprocess.run(["patch", "-p1", "-s", "-d", repo, "-i", diff], capture_output=True, text=True)
         if r.returncode != 0:
             return (pid, name, "PATCH-FAILED", 0, r.stdout + r.stderr)
-        env = dict(os.environ, VERIF_REPO=repo, VERIF_EVIDENCE_DIR=os.path.join(tmp, "ev"), VERIF_OUT_DIR=os.path.join(tmp, "out"))
         t0 = time.time()
-        r = subprocess.run([os.path.join(VERIF, "check"), pid, tier], capture_output=True, text=True, env=env, cwd=VERIF)
+        statuses, info = [], ""
+        for seed in SEEDS:
+            env = dict(os.environ, VERIF_REPO=repo, VERIF_EVIDENCE_DIR=os.path.join(tmp, "ev"), VERIF_OUT_DIR=os.path.join(tmp, "out"), VERIF_SEED=str(seed))
+            r = subprocess.run([os.path.join(VERIF, "check"), pid, tier], capture_output=True, text=True, env=env, cwd=VERIF)
+            lines = [l for l in r.stdout.splitlines() if l.startswith("  ") or "HARNESS" in l]
+            statuses.append({0: "MISSED", 1: "CAUGHT", 2: "HARNESS-ERROR"}.get(r.returncode, "rc=%d" % r.returncode))
+            if not info or statuses[-1] != "CAUGHT":
+                info = "\n".join(lines[:4]) + (r.stderr[-600:] if r.returncode not in (0, 1) else "")
         dt = time.time() - t0
-        lines = [l for l in r.stdout.splitlines() if l.startswith("  ") or "HARNESS" in l]
-        status = {0: "MISSED", 1: "CAUGHT", 2: "HARNESS-ERROR"}.get(r.returncode, "rc=%d" % r.returncode)
-        return (pid, name, status, dt, "\n".join(lines[:4]) + (r.stderr[-600:] if r.returncode not in (0, 1) else ""))
+        status = statuses[0] if len(set(statuses)) == 1 else "/".join(st[0] for st in statuses)     # e.g. C/M/C = caught, missed, caught
+        return (pid, name, status, dt, info)
     finally:
         shutil.rmtree(tmp, ignore_errors=True)
 
 def main():
     argv = sys.argv[1:]
+    global SEEDS
     tier, jobs = "quick", 4
     while argv and argv[0].startswith("--"):
+        if argv[0] == "--seeds": SEEDS = [int(x) for x in argv[1].split(",")]
         if argv[0] == "--tier": tier = argv[1]
         if argv[0] == "--jobs": jobs = int(argv[1])
         argv = argv[2:]
